@@ -16,7 +16,7 @@ def BOUND(tier):
 
 
 def RULE(tier):
-    return ("stateless exploration of the real Doist/DoDoer/Doer code: every doer forest shape in the tier's shape set x "
+    return ("" if tier == "quick" else sched.THOROUGH_NOTE + ". ") + ("stateless exploration of the real Doist/DoDoer/Doer code: every doer forest shape in the tier's shape set x "
             "every execution with <= %d deviations from the default answers (config tock/start/limit, leaf kind, per-step yielded tock in {0,None,T/2,T,2T,0.1} or return True/False/None). Oracle: per-doer (cycle, tyme) sequence and global within-cycle order equal the reference cycle model run on the recorded yields; final tyme = start + cycles*tock by repeated addition. "
             "distinct_nontrivial = executions with >=1 deviation whose full event trace was not seen before." % BOUND(tier))
 
@@ -40,4 +40,4 @@ def harness(job, ch):
                    sample=dict(shape=repr(job[1]), trace=[list(map(str, e[:3])) for e in w.trace[:30]]))
 
 
-run_job, replay = standard(harness, BOUND)
+run_job, replay = standard(harness, BOUND, job_bound=sched.tier_bound)
